@@ -11,13 +11,14 @@ fn load_known(path: &str) -> Vec<Known> {
 
 fn main() {
     let a: Vec<String> = std::env::args().collect();
+    if a.len() == 2 && a[1] == "calibrate" { render::calibrate_print(); return; }
     if a.len() == 3 && a[1] == "chartable" { chartable::generate(&a[2]); return; }
     if a.len() == 4 && a[1] == "c03worker" { util::install_panic_hook(); props::c03::worker(&a[2], a[3].parse().unwrap_or(0)); return; }
     if a.len() < 7 { eprintln!("usage: harness <prop> <quick|thorough> <seed> <driver> <known.json> <out.json>"); std::process::exit(2); }
     let (prop, tier, seed, driver, known, out) = (&a[1], &a[2], a[3].parse::<u64>().unwrap_or(1), &a[4], &a[5], &a[6]);
     util::install_panic_hook();
     let mut ctx = Ctx::new(prop, tier, seed, driver, load_known(known));
-    ctx.notes.extend(render::calibrate());
+    ctx.notes.extend(render::calibrate_isolated());
     match prop.as_str() {
         "C11" => props::c11::run(&mut ctx),
         "C12" => props::c12::run(&mut ctx),
